@@ -1017,6 +1017,86 @@ theorem C12_second_rear_like_first_partial (lo' : Ops) (u : Nat) (moot F : Strin
 example : (((rear 0 "f0" "mr" "f1" exRoundHouse).bind (pruneStep (nextOps Ops.bottom) 0 "f1" 2)).bind
     (fun s => (rearCreate 0 "mr" "f1" s).map (fun r => (r.2.name, r.2.uid)))).toOption = some ("ha_mr1", 3) := by decide +kernel
 
+/-! ## finding D12r: a rear between a transition's entry check and its enter -/
+
+/-- the ghost bracket gives the pending list back -/
+theorem C12_ghost_bracket_restores (p : List (Nat × String)) (k : St → Except Err St) (s s' : St)
+    (h : ghosted p k s = .ok s') : s'.pending = s.pending := by
+  unfold ghosted at h
+  cases r : k { s with pending := s.pending ++ p } with
+  | error e => simp [r] at h
+  | ok s1 =>
+    simp only [r] at h
+    injection h with h
+    rw [← h]
+
+example : ghosted [(0, "f1")] (fun s => .ok (s.emit "x")) ({ pending := [(3, "g")] } : St)
+    = .ok (({ pending := [(3, "g")] } : St).emit "x") := rfl
+
+/-- **Outside the region of D12r the `rear` act is `Rearer.action` and nothing else** (PARTIAL: the target frame is
+not pending, i.e. no entry check that covered it is waiting for its enter): the ghost flag is not touched. -/
+theorem C12_rear_outside_region_partial (lo : Ops) (u : Nat) (fn : String) (c : Ctxt) (m f : String) (s s' : St)
+    (hp : s.pending.contains (u, f) = false) (h : runAct lo u fn c (.rear m f) s = .ok s') :
+    rear u fn m f s = .ok s' := by
+  unfold runAct at h
+  cases hme : s.fr u with
+  | error e => simp [hme] at h
+  | ok me =>
+    simp only [hme] at h
+    cases hr : rear u fn m f s with
+    | error e => simp [hr, Except.map] at h
+    | ok s1 =>
+      simp only [hr, Except.map, hp, Bool.false_and] at h
+      simpa using h
+
+/-- non-vacuity and the witness of D12r: host `ha` (f0: exit-context `rear ma in frame f1`, `go f1 if recurred >= 1`)
+and the moot `ma` whose first frame is guarded by `let me if all is done` (false: it has no auxiliaries) -/
+def exLateHouse : St :=
+  { objs := [{ uid := 0, house := "verif", name := "ha", tag := "ha", sched := .active, inode := "", first := "f0", presolved := true,
+               resolved := true,
+               frames := [{ name := "f0", inode := "", over := none, next := some "f1", outline := ["f0"], links := [],
+                            items := [.act .enter (.record "e"), .act .exit (.record "x"), .act .exit (.rear "ma" "f1"),
+                                      .go "f1" [⟨false, .state "verif/framer.ha.state.recurred" .ge 1⟩]] },
+                          { name := "f1", inode := "", over := none, next := none, outline := ["f1"], links := [],
+                            items := [.act .exit (.record "x"), .act .enter (.record "e")] }] },
+             { uid := 1, house := "verif", name := "ma", tag := "ma", sched := .moot, inode := "", first := "a0",
+               frames := [{ name := "a0", inode := "", over := none, next := none, links := [],
+                            items := [.act .enter (.record "e"), .cond [⟨false, .allDone⟩], .act .exit (.record "x")] }] }],
+    names := [("ha", 0), ("ma", 1)], cur := "verif", houses := ["verif"], nextUid := 2 }
+
+/-- two ticks of the skedder -/
+def exLateRun : Except Err (List Host × St) :=
+  match hostsStep (opsAt 3) [{ uid := 0 }] exLateHouse with
+  | .error e => .error e
+  | .ok (hs, s) => hostsStep (opsAt 3) hs { s with now := 1 }
+
+/-- **Counterexample (finding D12r, unchanged code).**  The transition f0 → f1 passes its entry check, then f0's exit
+act rears a clone of `ma` into f1, then f1 is entered with the new auxiliary: the clone `ha_ma1` is active in its first
+frame `a0` although its own start check (`checkStart`, the `let` guard of `a0`) is false — the original alone is
+refused by the same check and never runs.  The ghost flag `St.lateRear` marks exactly this: the run is in the region. -/
+theorem C12_counterexample_D12r :
+    exLateRun.toOption.map (fun r => (r.2.lateRear, (r.2.get? 2).map (fun o => (o.name, o.ctl.active)),
+      (checkStart (opsAt 2) 2 [] r.2).toOption.map (·.1)))
+    = some (true, some ("ha_ma1", some "a0"), some false) := by decide +kernel
+
+/-- the same house when the rear is a RECUR act (made before the transition's check): outside the region, and the
+guarded clone blocks the transition instead of being entered unchecked -/
+def exEarlyHouse : St :=
+  { exLateHouse with
+    objs := exLateHouse.objs.map (fun o => if o.uid == 0 then
+      o.modFrame "f0" (fun f => { f with items := [.act .enter (.record "e"), .act .exit (.record "x"), .act .recur (.rear "ma" "f1"),
+                                                    .go "f1" [⟨false, .state "verif/framer.ha.state.recurred" .ge 1⟩]] }) else o) }
+
+def exEarlyRun : Except Err (List Host × St) :=
+  match hostsStep (opsAt 3) [{ uid := 0 }] exEarlyHouse with
+  | .error e => .error e
+  | .ok (hs, s) => hostsStep (opsAt 3) hs { s with now := 1 }
+
+example :
+    exEarlyRun.toOption.map
+      (fun r => (r.2.lateRear, (r.2.get? 0).map (fun o => o.ctl.active), (r.2.get? 2).map (fun o => o.ctl.active)))
+    = some (false, some (some "f0"), some none) := by decide +kernel
+
 /-! ## trees of clones: a clone that carries clones runs like its original -/
 
 /-- the entry points of the stand-alone TREE interpreter (Lemmas/ClonesTree.lean) at nesting level `n` -/
